@@ -227,7 +227,20 @@ func Domain(t *idl.Type, depth int, rich bool) []*Val {
 		e := Domain(t.Elem, depth-1, false)
 		out := []*Val{Nil(), List(), List(e[0])}
 		if len(e) > 1 {
-			out = append(out, List(e[0], e[1]))
+			second := e[1]
+			if t.Kind == idl.Set {
+				// the elements of a set are pairwise different values (nil and empty containers are one value)
+				second = nil
+				for _, c := range e[1:] {
+					if Same(t.Elem, e[0], c) != "" {
+						second = c
+						break
+					}
+				}
+			}
+			if second != nil {
+				out = append(out, List(e[0], second))
+			}
 		}
 		if !rich {
 			return out[2:]
